@@ -180,8 +180,9 @@ UnquoteReplace(s) == ReplaceAll(PctUnquote(s), HI, REPL)
 FormDecode(s) == PctUnquote(ReplaceAll(s, "+", " "))
 \* what a form-submitting client sends (quote_plus): every reserved byte percent-coded, space as "+"
 FormEncode(s) == ReplaceAll(ReplaceAll(PctQuote(s), "/", "%2F"), "%20", "+")
-\* query component as a Gemini client sends it: percent-coded, space as %20
-QueryEncode(s) == ReplaceAll(PctQuote(s), "/", "%2F")
+\* query component as a Gemini client sends it: percent-coded, space as %20; "+" is a sub-delimiter that RFC 3986 allows
+\* literally in a query and that stands for itself there (only form encoding reads it as a blank), so this client leaves it
+QueryEncode(s) == ReplaceAll(ReplaceAll(PctQuote(s), "/", "%2F"), "%2B", "+")
 
 QuoteLemma(s) == PctUnquote(PctQuote(s)) = s
 
